@@ -13,10 +13,15 @@ Cfg == [BaseCfg EXCEPT !.operators = << [name |-> "god", pass |-> "godpass", mas
 Pre == Reg(A, "Roland", "u1") \o Reg(B, "roland", "u2") \o Reg(C, "carol", "u3")
        \o << St(A, "OPER", <<<<"god">>, <<"godpass">>>>), St(A, "MODE", <<<<"Roland">>, <<"+iw">>>>), St(A, "AWAY", <<<<"busy">>>>),
              St(A, "JOIN", <<<<"#one">>>>), St(B, "JOIN", <<<<"#one">>>>), St(D, "!open", <<>>), St(D, "NICK", <<<<"ROLAND">>>>) >>
+N10 == "abcdefghij"
+N40 == N10 \o N10 \o N10 \o N10
+N200 == N40 \o N40 \o N40 \o N40 \o N40
+N201 == N200 \o "x"      \* longer than the advertised NICKLEN: accepted, and kept whole
 Names == {"Roland", "roland", "ROLAND", "carol", "nobody"}
 Acts == { St(c, "MODE", <<<<n>>, <<m>>>>) : c \in {A, B, C}, n \in Names \ {"nobody"}, m \in {"-o", "+o", "-i", "-w", "+r", "-o+iw"} }
         \cup { St(c, "MODE", <<<<n>>>>) : c \in {B, C}, n \in Names }
         \cup { St(c, "NICK", <<<<n>>>>) : c \in {A, B, C}, n \in {"Roland", "roland", "ROLAND", "rOLAND"} }
+        \cup { St(c, "NICK", <<<<n>>>>) : c \in {B, C}, n \in {N200, N201} }
         \cup { St(B, "AWAY", <<<<"away too">>>>), St(B, "AWAY", <<>>), St(D, "USER", <<<<"u4">>, <<"R">>>>), St(D, "QUIT", <<>>), St(B, "QUIT", <<>>),
                St(B, "KICK", <<<<"#one">>, <<"Roland">>>>), St(A, "KICK", <<<<"#one">>, <<"roland">>>>), St(C, "WHOIS", <<<<"Roland", "roland">>>>),
                St(B, "PRIVMSG", <<<<"Roland">>, <<"hi">>>>), St(C, "USERHOST", <<<<"Roland", "roland", "ROLAND">>>>), St(A, "LUSERS", <<>>) }
